@@ -479,6 +479,16 @@ func reportProperty(prog *Program, p, tier string, seed int, verif string, ctxs 
 				"secs": round3(o.Secs), "smt_bytes": o.QueryLen, "at": fmt.Sprintf("%s:%d", filepath.Base(o.Pos.Filename), o.Pos.Line), "clause": o.Detail})
 		}
 	}
+	// the obligations closest to the per-obligation time limit (margin against spurious timeouts)
+	byTime := append([]*Obligation(nil), obls...)
+	sort.SliceStable(byTime, func(i, j int) bool { return byTime[i].Secs > byTime[j].Secs })
+	var slowest []interface{}
+	for i, o := range byTime {
+		if i >= 8 {
+			break
+		}
+		slowest = append(slowest, map[string]interface{}{"obligation": o.Name, "solver": o.Solver, "secs": round3(o.Secs), "smt_bytes": o.QueryLen})
+	}
 	var as []string
 	for a := range assumptions {
 		as = append(as, a)
@@ -508,6 +518,7 @@ func reportProperty(prog *Program, p, tier string, seed int, verif string, ctxs 
 			"bounded_obligations":   bounded,
 			"failing":               failing,
 			"samples":               samples,
+			"slowest":               slowest,
 			"notes":                 ns,
 		}}
 	writeEvidence(verif, p, ev)
